@@ -468,6 +468,32 @@ def check_eq(cfg, crate, rep):
     rep.ob("C11.eq", "%s|from_oid" % cfg, "oid_components" in txt and "SignatureAlgorithm::iter" in " ".join(c for c, a, n, cnd, f in v.calls) and any("UnsupportedSignatureAlgorithm" in core(x).r() for _, x in (core(out["value"]).alts if isinstance(core(out["value"]), PhiV) else [(True, out["value"])])), "from_oid scans the list comparing oid_components and errors otherwise", found=txt[:200])
 
 
+def check_pub(cfg, crate, rep, rule="C11.pub"):
+    """`KeyPair::der_bytes` (the subjectPublicKey written into every SPKI, hashed into key identifiers and exported by
+    public_key_raw / public_key_der) is, for each kind of key, exactly what that key's `public_key()` returns: one
+    accessor call on the arm's own key object, viewed through `as_ref` -- no trimming, unwrapping, re-encoding."""
+    from interp import flatten_phi
+    fn = "<key_pair::KeyPair as key_pair::PublicKeyData>::der_bytes"
+    if fn not in crate.bodies:
+        rep.fail(rule, "%s|%s" % (cfg, fn), "public key accessor not found")
+        return
+    rep.fn(fn)
+    I = Interp(crate)
+    v = I.run_fn(fn)["value"]
+    kinds = {}
+    for c, x in flatten_phi(v):
+        vs = S._variants_of(c) or (["Remote"] if c is True else [])
+        x0 = core(x)
+        calls = sorted(c_ for c_ in calls_of(x) if not c_.endswith("::as_ref") and not c_.endswith("::deref"))
+        ok = isinstance(x0, CallV) and x0.callee.endswith("::public_key") and len(calls) == 1 and len(vs) == 1 \
+            and core(x0.args[0]).r() == "self.kind#%s.0" % vs[0] and not [r for r in roots(x) if r.startswith("op:")]
+        for k in vs:
+            kinds[k] = ok
+        rep.ob(rule, "%s|%s|%s" % (cfg, fn, ",".join(vs) or "?"), ok, "the public key bytes are the key object's own public_key(), unmodified", found=core(x).r()[:140])
+    want = {"Remote"} if cfg == "K3" else {"Ec", "Ed", "Rsa", "Remote"}
+    rep.ob(rule, "%s|%s|kinds" % (cfg, fn), set(kinds) == want, "one arm per key kind", expected=sorted(want), found=sorted(kinds))
+
+
 def run(ctx):
     rep = ctx.rep
     tables = {}
@@ -480,6 +506,7 @@ def run(ctx):
         import c14
         common.borrow_rules(rep, lambda: c14.loaders(cfg, crate, rep), "C14.", "C11.load")
         check_spki(cfg, crate, rep)
+        check_pub(cfg, crate, rep)
         check_eq(cfg, crate, rep)
         # "signatures that verify under the original public key": the signing routine computes each signature from the
         # message with this key, into a buffer sized from the key itself
